@@ -27,6 +27,7 @@ pub fn expand(input: &DeriveInput, _: &str) -> TokenStream {
     quote! {
         #[allow(deprecated)] // omit warnings on deprecated fields/variants
         #[allow(missing_docs)]
+        #[allow(non_snake_case)] // omit warnings on parameters named after the fields
         #[allow(unreachable_code)] // omit warnings for `!` and other unreachable types
         #[automatically_derived]
         impl #impl_generics #input_type #ty_generics #where_clause {
